@@ -3,14 +3,17 @@ import builder
 
 META = {
     "level": "other",
-    "trusted_base": ["B-merge/B-guard of C07 (put writes exactly the masked bits inside the window)", "slice::IterMut visits every element once",
+    "trusted_base": ["B-sem of C07 (put writes exactly the masked bits inside the window)", "slice::IterMut visits every element once", "buildsem.py (abstract interpreter; encoders and put as uninterpreted writers of the window)",
                      "rustc MIR construction", "mirfacts exporter"],
     "explanation": "Typestate CLEAN = 'data[3..1026] is zero and data[0] = 0xD3'. new() establishes CLEAN with has_run = false (T-new); in "
                    "build_message every path to the assembler passes clear_data(self) or the edge has_run == false (T-gate: must-pass-through "
                    "with those edges deleted); has_run = true is stored before the assembler exists, so failed builds are dirty too (T-set); "
                    "clear_data zeroes a range covering the whole assembler window and not byte 0 (T-clear); besides the assembler only the two "
                    "length bytes and three CRC bytes are stored, all on every successful build, never index 0 (T-writes, T-pre). Encoders receive "
-                   "only &Message and &mut Assembler (type level), so the frame is a function of the message alone.",
+                   "only &Message and &mut Assembler (type level), so the frame is a function of the message alone. Since round 2 these clauses are decided "
+                   "semantically first (W-sem: abstract interpretation of build_message over has_run x number() x variant x call outcomes x bit length "
+                   "mod 8, 1948 paths, with the wipe interpreted byte by byte); the template rules above remain as cross-check and as fallback for code "
+                   "outside the interpreter's modelled subset.",
     "assumptions": ["has_run == false implies CLEAN is an invariant because false is stored only by new()"],
 }
 
